@@ -65,7 +65,16 @@ pub fn replay(args: &[String]) -> anyhow::Result<()> {
                 node.call(&json!({"op":"nodes_view","alive":ids,"dead":[]}))?;
                 let dead: Vec<u64> = ids.iter().filter(|x| !alive.contains(x)).cloned().collect();
                 node.call(&json!({"op":"nodes_view","alive":alive,"dead":dead}))?;
-                let r = node.call(&json!({"op":"owner_query","keys":key_names}))?;
+                // the registry actor learns its range by a message from the node manager: give that message up to 1.5 s
+                // (a range that is never handed over - the pre-fix behaviour - still fails)
+                let mut r = node.call(&json!({"op":"owner_query","keys":key_names}))?;
+                for _ in 0..30 {
+                    if parse_range(&r["actor_range"]).is_some() && parse_range(&r["actor_range"]) == parse_range(&r["range"]) {
+                        break;
+                    }
+                    std::thread::sleep(std::time::Duration::from_millis(50));
+                    r = node.call(&json!({"op":"owner_query","keys":key_names}))?;
+                }
                 out.insert(vi.to_string(), r);
             }
             node.kill();
@@ -96,7 +105,13 @@ pub fn replay(args: &[String]) -> anyhow::Result<()> {
             // the range the registry actor decides with; before the first refresh it has none and owns nothing
             match parse_range(&r["actor_range"]) {
                 Some(x) => { ranges.insert(*l, x); }
-                None => { ranges.insert(*l, (u64::MAX, 2)); }
+                None => {
+                    // no range handed over yet: on a node that has only ever seen itself alive (the node manager's range
+                    // is the whole space and never changed, so nothing was announced) the registry decides as a stand-alone
+                    // node - everything is its own; in every other view "no range" owns nothing
+                    let alone = parse_range(&r["range"]).map(|x| x.1 < 2).unwrap_or(false);
+                    ranges.insert(*l, if alone { (0, 1) } else { (u64::MAX, 2) });
+                }
             }
             if let Some(x) = parse_range(&r["range"]) {
                 inner_ranges.insert(*l, x);
